@@ -6,7 +6,7 @@
    statement is false at full strength (finding F6: a 64-bit collision); the exact rule is evaluated by
    monitors 6.2 / 6.3 on every visited state, with the F6 game as the one listed finding. *)
 From Coq Require Import NArith List Bool.
-From Arimaa Require Import Types U64 Board Engine Cells Rules Monitors Invariant Live.
+From Arimaa Require Import Types U64 Board Zobrist Engine Cells Rules Monitors Invariant Live RepInv Material.
 Open Scope N_scope.
 
 Theorem C06_filter : forall s pp (Inv : PlayInv s pp),
@@ -24,3 +24,20 @@ Theorem C06_keep_def : forall s pp i d,
   keep s pp (Move i d) = negb ((step_of pp =? 3) && negb (trapped pp)) || negb (is_passing_like_action s (Move i d)).
 Proof. reflexivity. Qed.
 Print Assumptions C06_keep_def.
+
+(* forgetting the history at a capture never changes the verdict of the exact rule: a position from before the last
+   capture has strictly more pieces than any later one, so it cannot be an earlier occurrence *)
+Theorem C06_forget : forall s pp G Old b0 nb f, MatInv s pp G Old b0 -> (npc (cell nb) <= npc (cell (board s)))%nat ->
+  (forall x, In x (G ++ Old) -> f x = true -> peq x (nb, negb (side s))) ->
+  length (filter f (G ++ Old)) = length (filter f G).
+Proof. exact forgetting_is_harmless. Qed.
+Print Assumptions C06_forget.
+
+(* exactness for the pass, under the hypothesis that no 64-bit collision is involved in the comparisons made in s
+   (NoCollisionAt; it cannot be dropped: finding F6): a pass of the rule-only list is withheld only if the board is
+   the turn's starting board or the resulting position already occurred twice *)
+Theorem C06_pass_exact_partial : forall s pp G b0, RepInv s pp G b0 -> NoCollisionAt s G b0 (board s) ->
+  In Pass (valid_actions_no_rep s) -> ~ In Pass (valid_actions s) ->
+  beq (board s) b0 \/ (2 <= length (filter (fun x => (z_from_piece_board (board s) (negb (side s)) 0 =? hpos x)%N) G))%nat.
+Proof. exact withheld_pass_exact. Qed.
+Print Assumptions C06_pass_exact_partial.
